@@ -123,6 +123,14 @@ func (x *Exec) verifyFunction(fn *ssa.Function, c *FuncContract) (rep FuncReport
 			x.oblige(st2, nil, "ensures", clauseTag(cl), cl, 0, g, cl.Src)
 		}
 	})
+	// vacuity guard: an `assert before call NAME#k` whose call site was never met on any path checks nothing
+	if rep.Error == "" {
+		for _, cl := range c.Clauses {
+			if cl.Kind == "assert" && clauseActive(cl, x.active) && !x.assertSeen[cl] {
+				rep.Error = fmt.Sprintf("contract line %d: `assert before call %s#%d` matches no call site on any path of %s", cl.Line, cl.Callee, cl.Ord, funcFull(fn))
+			}
+		}
+	}
 	return rep
 }
 
